@@ -74,6 +74,18 @@ Theorem C01_profile_light_curve_partial : forall lg flux re m a Rout, 0 < re -> 
      - flux * enclosed_fraction m (sersic_bn (INR m / 2) * rpow (a / re) (1 / (INR m / 2)))).
 Proof. exact (fun lg flux re m a Rout H1 H2 H3 => sersic1d_light_between lg flux re m H1 H2 H3 a Rout). Qed.
 
+(* ... and quantitatively: the light between a and Rout differs from `flux` by at most |flux| (ta^m/m! + m (m+1)!/tR^2), where
+   ta = b_n (a/re)^(1/n) -> 0 as a -> 0 and tR = b_n (Rout/re)^(1/n) -> infinity as Rout -> infinity: the flux argument is the total
+   light of the profile  (circular 1-D profile, integer 2n) *)
+Theorem C01_profile_total_light_is_flux_partial : forall lg flux re m a Rout,
+  0 < re -> (0 < m)%nat -> exp (lg (2 * (INR m / 2))) = INR (fact (m - 1)) -> 0 < a -> a <= Rout ->
+  let ta := sersic_bn (INR m / 2) * rpow (a / re) (1 / (INR m / 2)) in
+  let tR := sersic_bn (INR m / 2) * rpow (Rout / re) (1 / (INR m / 2)) in
+  1 <= tR ->
+  exists L, is_RInt (fun r => 2 * PI * r * sersic1d lg r flux re (INR m / 2)) a Rout L /\
+            Rabs (L - flux) <= Rabs flux * (ta ^ m / INR (fact m) + INR m * INR (fact (S m)) / tR ^ 2).
+Proof. exact sersic1d_total_light. Qed.
+
 Print Assumptions C01_fourier_gauss_dc.
 Print Assumptions C01_pointsource_dc.
 Print Assumptions C01_ramps_dc.
@@ -85,3 +97,4 @@ Print Assumptions C01_amp_sum_band.
 Print Assumptions C01_hybrid_real_space_scaled.
 Print Assumptions C01_convolved_total_spatial.
 Print Assumptions C01_profile_light_curve_partial.
+Print Assumptions C01_profile_total_light_is_flux_partial.
